@@ -123,7 +123,7 @@ class C14(Prop):
                 "samples": [{"query": q, "answer": a} for q, a in list(zip(qs, ref[1:]))[:4]]}
 
 
-CRASH_POINTS = [0, 1, 2, 3, 4, 10, 11, 12, 13, 14, 15, 17, 16]
+CRASH_POINTS = [0, 1, 2, 3, 4, 5, 10, 11, 12, 13, 14, 15, 17, 16]
 PRIOR = ["absent", "complete", "other-version", "other-data", "meta-missing", "meta-truncated", "meta-garbage",
          "index-missing", "index-damaged", "index-emptied",
          # an index that opens but does NOT hold the shipped data (committed empty), under metadata of
@@ -302,6 +302,90 @@ def same_shape_other_data():
         shutil.rmtree(xdg, ignore_errors=True)
 
 
+def foreign_build_histories(probes, fresh, tmpl, current, tier):
+    """Histories in which ANOTHER build of the same version with other data (one number of
+    db/files.bin.gz changed) starts on our data directory — complete or killed at a crash point —
+    between our own starts. The other build is the `any` binary of a scratch copy of the working
+    tree compiled with the hooks on (copy and build output under /var/tmp, removed before
+    returning). After every history a complete start of OURS must answer like a fresh in-memory
+    database, and the metadata states after each step are compared with the model's prediction
+    (`recover <prior> f<cp>,…`). Returns (status, detail, n, nontrivial, spec_fail, corr_fail)."""
+    import gzip
+    copy = Path("/var/tmp") / f"verif-c15-foreign-{os.getpid()}"
+    xdg = SCR / "xdg-c15-foreign"
+    probes = list(probes) + ["standard gravity g0"]     # the constant the other build ships differently
+    rc, fresh = dbopen("mem", probes, tag="c15")
+    try:
+        shutil.rmtree(copy, ignore_errors=True)
+        rc = subprocess.run(["rsync", "-a", "--exclude", "/target", "--exclude", "/.git", str(C.REPO) + "/", str(copy) + "/"],
+                            capture_output=True, text=True, timeout=600)
+        if rc.returncode != 0:
+            return "setup", "rsync failed", 0, 0, [], []
+        asset = copy / "db" / "files.bin.gz"
+        raw = gzip.decompress(asset.read_bytes())
+        pat = bytes.fromhex("1a0002fe25")
+        if raw.count(pat) != 1:
+            return "setup", "the numerator of standard gravity was not found in files.bin.gz", 0, 0, [], []
+        i = raw.index(pat)
+        asset.write_bytes(gzip.compress(raw[:i] + b"\x1a" + (196200).to_bytes(4, "big") + raw[i + 5:]))
+        if (C.HARNESS / "target").exists():
+            # the harness build has the dependencies compiled with the hooks' flags
+            subprocess.run(["cp", "-r", str(C.HARNESS / "target"), str(copy / "target")], timeout=900)
+        env = dict(C.ENV, RUSTFLAGS="--cfg anything_verif")
+        with C.Lock("cargo"):
+            b = subprocess.run(["cargo", "build", "--offline", "--release", "--bin", "any", "--manifest-path", str(copy / "Cargo.toml"),
+                                "--target-dir", str(copy / "target")], capture_output=True, text=True, timeout=2400, env=env, cwd=str(copy))
+        if b.returncode != 0:
+            return "setup", "build of the other build failed: " + b.stderr[-300:], 0, 0, [], []
+        other = copy / "target" / "release" / "any"
+
+        def other_start(cp):
+            e = dict(C.ENV, XDG_DATA_HOME=str(xdg), HOME=str(xdg))
+            e.pop("ANYTHING_VERIF_CRASH", None)
+            if cp is not None:
+                e["ANYTHING_VERIF_CRASH"] = str(cp)
+            subprocess.run([str(other), "standard gravity g0"], capture_output=True, text=True, timeout=120, env=e)
+
+        pts = CRASH_POINTS if tier == "thorough" else [1, 4, 5, 11, 12, 13, 14, 15, 17]
+        hist = []
+        for prior in ("complete", "absent", "other-data", "meta-missing", "index-missing") if tier == "thorough" else ("complete", "absent"):
+            for cp in pts + [None]:
+                hist.append((prior, [("f", cp)]))
+                hist.append((prior, [("f", cp), ("a", 11)]))
+            hist.append((prior, [("f", None), ("a", 13), ("f", 13)]))
+            hist.append((prior, [("f", 13), ("f", 5), ("a", 5)]))
+        tok = lambda ev: ("f" if ev[0] == "f" else "") + ("full" if ev[1] is None else str(ev[1]))
+        rc, pred, err = C.run_lines(C.driver_bin(), ["recover " + p_ + " " + ",".join(tok(e) for e in evs) for p_, evs in hist])
+        spec_fail, corr_fail, n, nontriv = [], [], 0, 0
+        for (prior, evs), pr in zip(hist, pred):
+            make_prior(xdg, prior, tmpl)
+            trace = []
+            for who, cp in evs:
+                if who == "f":
+                    other_start(cp)
+                else:
+                    dbopen("disk", probes, xdg=xdg, crash=cp, tag="c15")
+                trace.append(meta_state(xdg, current))
+            rc, lines = dbopen("disk", probes, xdg=xdg, tag="c15")
+            n += 1
+            name = f"prior={prior} then " + ", ".join(("the other build" if w == "f" else "this build") + (" completes a start" if c is None else f" is killed at crash point {c}") for w, c in evs)
+            observed = "M " + ",".join(trace) + " F " + meta_state(xdg, current) + (" ANSWERS-FRESH" if lines == fresh else " ANSWERS-DIFFER")
+            if lines != fresh:
+                diff = [C.unhex(l.split(" ")[1]) if l.startswith("A ") and len(l.split(" ")) > 1 else l for l, r in zip(lines, fresh) if l != r][:3]
+                spec_fail.append((f"history:foreign:{prior}:{[tok(e) for e in evs]}", name,
+                                  f"{name}: a complete start of this build then answers differently from a fresh in-memory database: {diff}"))
+            else:
+                nontriv += 1
+            if pr != observed:
+                corr_fail.append((name, observed, pr))
+        return "ok", f"{n} histories with another build of the same version", n, nontriv, spec_fail[:10], corr_fail[:10]
+    except Exception as e:
+        return "setup", f"{type(e).__name__}: {e}", 0, 0, [], []
+    finally:
+        shutil.rmtree(copy, ignore_errors=True)
+        shutil.rmtree(xdg, ignore_errors=True)
+
+
 class C15(Prop):
     """Theorems (Props/C15.lean): the rebuild state machine keeps the invariant `metadata says current and the index opens => the committed index is the shipped data` through every step, crash prefix and listed damage, so every history ends with fresh answers and the metadata is written only after the commit; correspondence: real runs aborted at each crash point from every prior directory state, followed by restarts, compared with the model's predicted metadata state and with a freshly built in-memory database."""
     id = "C15"
@@ -361,14 +445,21 @@ class C15(Prop):
         # build that was killed — the next on-disk start still answers from the shipped data
         mem_hist = [(prior, []) for prior in PRIOR] + [(prior, [cp]) for prior in ("absent", "complete", "other-data", "index-emptied", "other-version")
                                                        for cp in (CRASH_POINTS if tier == "thorough" else [1, 4, 10, 11, 12, 13])]
-        for prior, cps in mem_hist:
+        rc, mpred, err = C.run_lines(C.driver_bin(), ["recover " + p_ + " " + ",".join([str(c) for c in cps_] + ["mem"]) for p_, cps_ in mem_hist])
+        for (prior, cps), pr in zip(mem_hist, mpred):
             make_prior(xdg, prior, tmpl)
+            trace = []
             for cp in cps:
                 dbopen("disk", probes, xdg=xdg, crash=cp, tag="c15")
+                trace.append(meta_state(xdg, current))
             rc, mlines = dbopen("mem", probes, xdg=xdg, tag="c15")
+            trace.append(meta_state(xdg, current))
             rc, lines = dbopen("disk", probes, xdg=xdg, tag="c15")
             n += 1
             name = f"prior={prior} crashes={cps} then an in-memory session, then an on-disk start"
+            observed = "M " + ",".join(trace) + " F " + meta_state(xdg, current) + (" ANSWERS-FRESH" if lines == fresh else " ANSWERS-DIFFER")
+            if pr != observed:
+                corr_fail.append((name, observed, pr))
             if mlines != fresh:
                 spec_fail.append((f"history:mem:{prior}:{cps}", name, f"{name}: the in-memory session itself answers differently from a fresh one"))
             elif lines != fresh:
@@ -376,6 +467,18 @@ class C15(Prop):
                 spec_fail.append((f"history:mem:{prior}:{cps}", name, f"{name}: answers differ from a fresh in-memory database: {diff}"))
             else:
                 nontriv += 1
+        # ANOTHER build of the same version that ships other data, on the same data directory: its
+        # starts, complete or killed at the crash points, interleaved with ours (needs a second build
+        # with the hooks on: thorough tier, and quick tier when db.rs / config.rs differ from the pin)
+        from . import fingerprints as _fp
+        foreign = "not run (quick tier, db.rs and config.rs as pinned)"
+        if tier == "thorough" or _fp.stale_for("C15"):
+            status, detail, fn_, fnon, ffails, fcorr = foreign_build_histories(probes, fresh, tmpl, current, tier)
+            foreign = status + ": " + detail[:160]
+            n += fn_
+            nontriv += fnon
+            spec_fail = ffails + spec_fail
+            corr_fail = fcorr + corr_fail
         shutil.rmtree(xdg, ignore_errors=True)
         shutil.rmtree(tmpl, ignore_errors=True)
         # "written for other data" with NOTHING but the content different (same asset names, byte
@@ -393,7 +496,7 @@ class C15(Prop):
             elif status == "ok":
                 nontriv += 1
         return {"evaluations": n, "nontrivial": nontriv, "spec_fail": spec_fail[:10], "corr_fail": corr_fail[:10],
-                "dist": {"histories": len(hist), "prior_states": len(PRIOR), "crash_points": len(CRASH_POINTS), "same-shape-other-data: " + shape: 1},
+                "dist": {"histories": len(hist), "prior_states": len(PRIOR), "crash_points": len(CRASH_POINTS), "same-shape-other-data: " + shape: 1, "foreign-build histories: " + foreign: 1},
                 "samples": [{"history": f"prior={p} crashes={c}"} for p, c in hist[:: max(1, len(hist) // 5)][:5]]}
 
 
